@@ -200,6 +200,13 @@ m("C16-m", "C16", "libwallet/src/internal/scan.rs", "\t\tlet matched_out = walle
 m("C04-j", "C04", "libwallet/src/internal/updater.rs", "\t\t\t&& out.height < height - 50\n\t\t\t&& out.is_coinbase\n", "\t\t\t&& out.height < height - 50\n", "C04.R7")
 m("C06-f", "C06", "impls/src/backends/lmdb.rs", "\t\t\t.map_err(|e| Error::StoredTx(format!(\"{}: {}\", uuid, e)))?,\n\t\t))", "\t\t\t.unwrap_or_default(),\n\t\t))", "C06.R4")
 
+m("C04-k", "C04", "libwallet/src/internal/updater.rs", "\t\t\t\tSome(t) => tx_entries.iter().any(|te| te.id == *t),\n\t\t\t\tNone => true,", "\t\t\t\tSome(t) => tx_entries.iter().any(|te| te.id == *t),\n\t\t\t\tNone => false,", "C04.R")
+m("C04-l", "C04", "libwallet/src/internal/updater.rs", "\t\t\tout.tx_log_entry,\n\t\t\tout.status == OutputStatus::Unspent,\n\t\t);", "\t\t\tout.tx_log_entry,\n\t\t\tout.status != OutputStatus::Spent,\n\t\t);", "C04.R8")
+
+m("C18-i", "C18", "libwallet/src/internal/updater.rs", "\t\t\tif *was_unspent && !api_outputs.contains_key(commit) {", "\t\t\tif !api_outputs.contains_key(commit) {", "C18.R4")
+m("C18-j", "C18", "libwallet/src/internal/updater.rs", "\t\t\t\t&& t.tx_type == TxLogEntryType::TxReceived\n\t\t})\n\t\t.filter_map(", "\t\t\t\t&& t.tx_type != TxLogEntryType::TxSent\n\t\t})\n\t\t.filter_map(", "C18.R4")
+m("C18-k", "C18", "libwallet/src/internal/updater.rs", "\t\t\tif *was_unspent && !api_outputs.contains_key(commit) {", "\t\t\tif *was_unspent || !api_outputs.contains_key(commit) {", "C18.R4")
+
 
 def for_property(prop):
     return [x for x in M if x["property"] == prop]
